@@ -274,6 +274,10 @@ func blockingUnderLock(c *an.Ctx, fns []*ssa.Function, classes map[string]bool, 
 				return
 			}
 			_, may := fl.At(in)
+			// locks inherited from the callers are reported at the caller's call site, not again here
+			for k := range fl.Entry {
+				delete(may, k)
+			}
 			var held []string
 			for _, cl := range may.Classes() {
 				if classes[cl] {
